@@ -70,7 +70,7 @@ Proof.
         apply G. rewrite P2 by exact Hne. apply G. exact Hq.
     + intros [H1 H2].
       assert (Hc : c = Some w). { rewrite P1. apply H1. cbn [assoc]. rewrite String.eqb_refl. reflexivity. }
-      subst c. cbv iota beta. rewrite Z.eqb_refl. cbn [andb].
+      rewrite Hc. cbv iota beta. rewrite Z.eqb_refl. cbn [andb].
       apply IH. split.
       * intros q qw Hq. assert (Hne : q <> p).
         { apply Hnotin. clear - Hq. induction ports as [|[a b] l IHl]; cbn [assoc map fst In] in *; [discriminate|].
